@@ -1729,7 +1729,8 @@ def check_C14(tier):
         "traces_validated_against_impl": len(recs),
         "samples": samples,
         "evaluations": len(recs), "distinct_nontrivial": len({(x["sid"], tuple(x["f"]["path"])) for x in recs if x["f"]["depth"] > 0}),
-        "rule": "records = every entry yielded by %d real walks: globs (unprefixed, prefixed, rooted at the absolute scratch path, ./.. prefixes) over three trees x bases inside the tree x base spelled absolute / with trailing separator / with a . component, with depth behaviours and both link behaviours, and plain path walks; the std::path facts are evaluated by the harness and validated by TLC (EntryCheck!Consistent); non-trivial = entries below the walk root" % len(scenarios),
+        "rule": "records = every entry yielded by %d real walks: globs (unprefixed, prefixed, rooted at the absolute scratch path, ./.. prefixes) over three trees x bases inside the tree x base spelled absolute / with trailing separator / with a . component, with depth behaviours and both link behaviours, and plain path walks; joining, components and equality of paths are derived by the specification (PathAlg.tla) from the raw bytes of path, root segment, relative segment and given directory (EntryCheck!Consistent); PathAlg is bound to std::path on all %d ordered pairs of byte strings up to length %d over `/ . a` (every operator equal, the laws of join / strip hold: PathAlgCheck) and on every recorded entry (EntryCheck!StdAgrees); bases also given relative to the current directory (root/a, ./root/a); non-trivial = entries below the walk root" % (len(scenarios), palg["pairs"], palg["max_len"]),
+        "path_algebra": palg,
         "disagreements": nd, "known_findings_hit": sorted(v.findings), "exhaustive": False,
     }, time.time() - t0, len(v.violations), ["TLC", "std::path is what the statement's notions (join, components) are defined by; PathAlg.tla restates them and is checked against std exhaustively on short byte strings"])
     return rc
